@@ -93,6 +93,8 @@ def refused_case(ctx, res, kind, position, verbose):
         bad, bad_path = "caf\u00e9.bas", "caf\u00e9.bas"
     elif kind == "not_ascii_ext":
         bad, bad_path = "abcdefg\u00e9.d\u00e9t", "abcdefg\u00e9.d\u00e9t"
+    elif kind == "not_ascii_ext_only":
+        bad, bad_path = "notes.\u00e9\u00e9", "notes.\u00e9\u00e9"
     elif kind == "is_archive_plain":
         arc, bad, bad_path = "notes.bin", "notes.bin", "notes.bin"
     elif kind == "is_archive_dotslash":
@@ -102,6 +104,14 @@ def refused_case(ctx, res, kind, position, verbose):
         os.makedirs(os.path.join(d, "sub"))
     elif kind == "is_archive_abs":
         arc, bad, bad_path = os.path.join(d, "notes.bin"), os.path.join(d, "notes.bin"), os.path.join(d, "notes.bin")
+    elif kind == "is_archive_bas_A":
+        arc, bad, bad_path = "prog.bas", "prog.bas,A", "prog.bas"
+    elif kind == "is_archive_abs_vs_relative":
+        arc, bad, bad_path = "notes.bin", os.path.join(d, "notes.bin"), os.path.join(d, "notes.bin")
+    elif kind == "is_archive_relative_vs_abs":
+        arc, bad, bad_path = os.path.join(d, "notes.bin"), "notes.bin", "notes.bin"
+    elif kind in ("is_archive_symlink", "is_archive_hardlink"):
+        arc, bad, bad_path = "notes.bin", "alias.dat", "notes.bin"
     else:  # the ,a option is not part of the path
         arc, bad, bad_path = "prog.bas", "prog.bas,a", "prog.bas"
     files = list(ordinary)
@@ -112,6 +122,12 @@ def refused_case(ctx, res, kind, position, verbose):
         with open(os.path.join(d, path), "wb") as f:
             f.write(content)
         world.append((path, content))
+    if kind == "is_archive_symlink":
+        os.symlink("notes.bin", os.path.join(d, "alias.dat"))
+    if kind == "is_archive_hardlink":
+        os.link(os.path.join(d, "notes.bin"), os.path.join(d, "alias.dat"))
+    # a relative and an absolute spelling of one place, and links, are outside the model's lexical comparison (DESIGN S3): oracle only
+    unmodelled = kind in ("is_archive_abs_vs_relative", "is_archive_relative_vs_abs", "is_archive_symlink", "is_archive_hardlink")
     srcs = [n for n, _ in files]
     before = T.snapshot(d)
     status, out = T.tar(["-c"] + (["-v"] if verbose else []) + [arc] + srcs, cwd=d)
@@ -124,11 +140,56 @@ def refused_case(ctx, res, kind, position, verbose):
         res.violate("refused_source", "status 0 although a source cannot be archived (it is the archive itself / its name is not ascii)", case, out, {"clause": "refused_status", "kind": kind})
     if changed:
         res.violate("refused_source", "a refused creation wrote or altered a file (a source that is the archive must keep its bytes)", case, changed, {"clause": "all_or_nothing", "kind": kind})
+    if unmodelled:
+        return
     mo = T.parse_outcome(drv([f"tape.inject {'v' if verbose else 'q'} {cps(arc)} {len(srcs)} " + " ".join(cps(s) for s in srcs)
                               + "".join(f" {cps(p)} {hx(c)}" for p, c in world)])[0])
     st.compared += 1
     if mo["status"] != status or bool(mo["writes"]) != bool(changed):
         res.disagree("refused_source", case, {"status": mo["status"], "wrote": bool(mo["writes"])}, {"status": status, "changed": changed})
+
+
+def odd_source_case(ctx, res, kind, position, verbose):
+    """a source argument that is not a regular readable file — a directory, a dangling symbolic link — at every position: the
+    creation is all or nothing (non-zero status and no archive, the old one untouched), and whatever archive a run with status
+    0 writes is the exact encoding of the files it reports (strict decoder)"""
+    st = res.stream("odd_source")
+    d = ctx.fresh_dir()
+    ordinary = [("a.bas", b"10 REM\n"), ("b.dat", bytes(range(200))), ("c.bin", b"c" * 300)]
+    if kind == "directory":
+        os.makedirs(os.path.join(d, "adir.d"))
+        odd = "adir.d"
+    elif kind == "directory_no_dot":
+        os.makedirs(os.path.join(d, "subdir"))
+        odd = "subdir"
+    else:
+        os.symlink("nowhere.dat", os.path.join(d, "dangling.dat"))
+        odd = "dangling.dat"
+    for n, c in ordinary:
+        with open(os.path.join(d, n), "wb") as f:
+            f.write(c)
+    srcs = [n for n, _ in ordinary]
+    srcs.insert(position, odd)
+    pre = b"older archive" if position % 2 else None
+    if pre is not None:
+        with open(os.path.join(d, "t.k7"), "wb") as f:
+            f.write(pre)
+    before = T.snapshot(d)
+    status, out = T.tar(["-c"] + (["-v"] if verbose else []) + ["t.k7"] + srcs, cwd=d)
+    after = T.snapshot(d)
+    case = {"kind": kind, "position": position, "sources": srcs, "preexisting": pre is not None}
+    st.see(case, nontrivial=True)
+    res.count(f"odd_source:{kind}:{status}")
+    changed = sorted(k for k in set(before) | set(after) if before.get(k) != after.get(k))
+    if status != "ok0":
+        if changed:
+            res.violate("odd_source", "a failed creation wrote or altered a file", case, changed, {"clause": "all_or_nothing", "kind": kind})
+        return
+    tape = after.get("t.k7")
+    dec = T.strict_decode(tape)[0] if tape is not None else None
+    if tape is None or len(tape) != 21504 or dec is None:
+        res.violate("odd_source", "status 0 with an archive that is not a well-formed tape of the files it reports", case,
+                    {"len": None if tape is None else len(tape), "out": out[-300:]}, {"clause": "complete", "kind": kind})
 
 
 def tuned(rng, target, nfiles, tune_index):
@@ -204,6 +265,11 @@ def run(ctx, res):
             one_case(ctx, res, "missing_source", files, missing_at=idx, preexisting=rng.choice([None, b"old archive"]))
     res.sample({"missing_at": 0, "files": 1})
     # refused sources (F26, F27) at every position
-    for kind in ("is_archive_plain", "is_archive_dotslash", "is_archive_dotslash_src", "is_archive_abs", "is_archive_bas_a", "not_ascii_name", "not_ascii_ext"):
+    for kind in ("is_archive_plain", "is_archive_dotslash", "is_archive_dotslash_src", "is_archive_abs", "is_archive_bas_a", "is_archive_bas_A",
+                 "is_archive_abs_vs_relative", "is_archive_relative_vs_abs", "is_archive_symlink", "is_archive_hardlink", "not_ascii_name", "not_ascii_ext",
+                 "not_ascii_ext_only"):
         for position in range(4):
             refused_case(ctx, res, kind, position, verbose=(position % 2 == 1))
+    for kind in ("directory", "directory_no_dot", "dangling_link"):
+        for position in range(4):
+            odd_source_case(ctx, res, kind, position, verbose=(position % 2 == 0))
